@@ -421,6 +421,20 @@ func init() {
 					}
 				}
 				c.Check(okOrder, "crossing-order", c.Pos(in), "the 'before' value is read before and the 'after' value after the update", "crossing test does not compare the amounts before and after the update")
+				// nothing else decides: the only conditions on the way to the callback are the three above and nBytesReleased > 0
+				var extra []string
+				for _, f := range DomFacts(in.Block()) {
+					switch {
+					case CmpCond(token.NEQ, IsLoadOf(cb), isNilConst)(f.Cond, f.Taken):
+					case CmpCond(token.GTR, IsLoadOf(ba), IsLoadOf(low))(f.Cond, f.Taken):
+					case CmpCond(token.LEQ, IsLoadOf(ba), IsLoadOf(low))(f.Cond, f.Taken):
+					case CmpCond(token.GTR, IsParam(obr, 1), IsConstInt(0))(f.Cond, f.Taken):
+					case phiExplainedBy(f.Cond, DomFacts(in.Block())):
+					default:
+						extra = append(extra, fmt.Sprintf("%s=%v", shortValue(c.P, f.Cond), f.Taken))
+					}
+				}
+				c.Check(len(extra) == 0, "fires-no-extra-guard", c.Pos(in), "no other condition can suppress a crossing's callback", "additional condition(s) can suppress the callback on a downward crossing: "+strings.Join(extra, ", "))
 			})
 			pa := c.Fn("Association.processAcknowledgement")
 			okAll := false
@@ -462,4 +476,28 @@ func init() {
 					"a stream is released by an amount that is not its own entry of bytesAckedPerStream (e.g. the SACK total): per-stream figures stop adding up and the low-threshold callback fires at the wrong time")
 			}
 		}})
+}
+
+// phiExplainedBy: cond is a boolean φ (a && / || chain) all of whose non-constant
+// inputs are themselves among the facts (so they are judged individually).
+func phiExplainedBy(cond ssa.Value, facts []condFact) bool {
+	phi, ok := cond.(*ssa.Phi)
+	if !ok {
+		return false
+	}
+	for _, e := range phi.Edges {
+		if _, isK := e.(*ssa.Const); isK {
+			continue
+		}
+		found := false
+		for _, f := range facts {
+			if f.Cond == e {
+				found = true
+			}
+		}
+		if !found {
+			return false
+		}
+	}
+	return true
 }
